@@ -264,4 +264,83 @@ theorem addItem_tracks {b b' : Builder} {it : Item} {added : List Item} (hb : b.
             exact this
       · simp [hlt] at h
 
+theorem addItems_tracks (items : List Item) (hv : ∀ it ∈ items, it.valid) :
+    ∀ (b b' : Builder) (added : List Item), b.Inv → TracksRaw b.snap.raw added → addItems b items = .ok b' →
+      TracksRaw b'.snap.raw (items.reverse ++ added) := by
+  induction items with
+  | nil =>
+    intro b b' added _ ht h
+    simp only [addItems, AddResult.ok.injEq] at h
+    subst h; simpa using ht
+  | cons it rest ih =>
+    intro b b' added hb ht h
+    simp only [addItems] at h
+    match ha : b.addItem it.tid it.id it.data, h with
+    | some (b1, none), h =>
+      simp only [] at h
+      have hvi := hv it (by simp)
+      have hb1 := Builder.addItem_inv hb hvi.1 hvi.2.1 hvi.2.2 ha
+      have ht1 := addItem_tracks hb hvi ht ha
+      have := ih (fun i hi => hv i (by simp [hi])) b1 b' (it :: added) hb1 ht1 h
+      simpa [List.reverse_cons, List.append_assoc] using this
+
+/-- only registry items -/
+def Clean (r : RawSnap) : Prop := ∀ p ∈ r.items, keyType p.1 = typeIdEx
+
+theorem tracks_of_clean {r : RawSnap} (h : Clean r) : TracksRaw r [] :=
+  ⟨fun p hp => Or.inl (h p hp), fun it hit => by simp at hit⟩
+
+theorem viewRaw_reg (r : RawSnap) (p : Int × List Int) (h : keyType p.1 = typeIdEx) : viewRaw r p = none := by
+  unfold viewRaw rawTypeOf Snap.typeId
+  simp [h]
+
+/-- The objects the reader reports for a snapshot built from a clean (recycled or new) builder are
+exactly the objects handed to `add_item`. -/
+theorem built_items {b0 b : Builder} {items its : List Item} (hb0 : b0.Inv) (hc : Clean b0.snap.raw)
+    (hv : ∀ it ∈ items, it.valid) (hadd : addItems b0 items = .ok b) (hs : snapItems b.snap = some its) :
+    ∀ it, it ∈ its ↔ it ∈ items := by
+  have ht := addItems_tracks items hv b0 b [] hb0 (tracks_of_clean hc) hadd
+  rw [List.append_nil] at ht
+  have hspec := snapItems_spec b.snap its hs
+  intro it
+  constructor
+  · intro hit
+    rw [hspec, List.mem_filterMap] at hit
+    obtain ⟨p, hp, hvw⟩ := hit
+    rcases ht.sound p hp with h0 | ⟨it', hit', hv'⟩
+    · rw [viewRaw_reg _ _ h0] at hvw; cases hvw
+    · rw [hv'] at hvw; injection hvw with e; subst e
+      simpa using hit'
+  · intro hit
+    obtain ⟨p, hp, hvw⟩ := ht.complete it (by simpa using hit)
+    rw [hspec, List.mem_filterMap]
+    exact ⟨p, hp, hvw⟩
+
+theorem snapItems_ne_none {s : Snap} (hs : ExtOk s) : snapItems s ≠ none := by
+  have hacc : Accepted s := accepted_of_buildFromRaw hs.raw_wf (buildFromRaw_of_extOk hs)
+  have := items_ne_none hacc
+  unfold snapItems
+  cases h : s.items with
+  | none => exact absurd h this
+  | some l => simp
+
+theorem recycle_clean {b b' : Builder} (hb : b.Inv) (h : b.snap.recycle = some b') : Clean b'.snap.raw := by
+  intro p hp
+  unfold Snap.recycle at h
+  cases hn : recycleNext b.snap.raw.items offsetExt with
+  | none => simp [hn] at h
+  | some n =>
+    simp only [hn] at h
+    cases hr : recycleAdd b.snap.ext RawSnap.empty with
+    | none => simp [hr] at h
+    | some raw =>
+      simp only [hr, Option.some.injEq] at h
+      subst h
+      rcases recycleAdd_items _ _ _ hr p hp with h0 | ⟨q, hq, hk⟩
+      · simp [RawSnap.empty] at h0
+      · have hm : mfind q.1 b.snap.ext = some q.2 := mfind_of_mem hb.ok.ext_sorted hq
+        have hlt : q.2 < 65536 := (hb.ok.ext_reg q.1 q.2 hm).2.1
+        rw [hk]
+        exact keyType_keyOf (by rw [typeIdEx_eq]; omega) hlt
+
 end Tw.DemoHl
